@@ -111,6 +111,8 @@ package lexer
 //@ spec func isStringLexeme(r rune) bool { return r == scanner.String || r == scanner.RawString }
 
 //@ func (*lexer).nextToken
+//@   modifies l.err, scanRemaining(&l.scanner)
+//@   ensures[input-never-grows] scanRemaining(&l.scanner) <= old(scanRemaining(&l.scanner))
 //@   capture fl = call(l.scanner.Peek, 0)
 //@   capture pk = call(l.scanner.Peek, 1)
 //@   capture su = call(lexerql.ScanUnit, 0)
@@ -135,12 +137,33 @@ package lexer
 //@   capture pk = call(s.Peek, 0)
 //@   modifies scanRemaining(s)
 //@   ensures[stops-at-the-first-non-space] pk_called && !unicode.IsSpace(pk_r0)
+//@   ensures[input-never-grows] scanRemaining(s) <= old(scanRemaining(s))
 //@   loop 0 modifies scanRemaining(s)
+//@   loop 0 invariant scanRemaining(s) <= old(scanRemaining(s))
 //@   loop 0 body_ensures[skips-every-space] pk_called && unicode.IsSpace(pk_r0)
 //@   loop 0 decreases scanRemaining(s)
 //@ func scanFlag
 //@   modifies scanRemaining(s)
+//@   ensures[input-never-grows] scanRemaining(s) <= old(scanRemaining(s))
 //@   loop 0 modifies sb.*, scanRemaining(s)
+//@   loop 0 invariant scanRemaining(s) <= old(scanRemaining(s))
 //@   loop 0 decreases scanRemaining(s)
 //@ func (*lexer).setError
 //@   modifies l.err
+
+// The scanner reports lexical errors through this closure: it records the first... (every) error.
+//@ func Tokenize$2
+//@   modifies l.err
+
+// One token per scanned lexeme, in order; `#` comments produce no token; the first lexeme that is
+// not a token ends the scan with the error recorded. The loop consumes input on every round.
+//@ func Tokenize
+//@   capture sc = call(l.scanner.Scan, 0)
+//@   capture tt = call(l.scanner.TokenText, 0)
+//@   capture cm = call(lexerql.ScanComment, 0)
+//@   capture nt = call(l.nextToken, 0)
+//@   loop 0 body_ensures[comments-produce-no-token] sc_called && (sc_r0 == '#' ==> cm_called && !nt_called && len(l.tokens) == head(len(l.tokens)))
+//@   loop 0 body_ensures[one-token-per-lexeme-in-order] sc_r0 != '#' ==> nt_called && nt_r1 && nt_a0 == sc_r0 && tt_called && nt_a1 == tt_r0 &&
+//@       len(l.tokens) == head(len(l.tokens)) + 1 && l.tokens[len(l.tokens)-1].Type == nt_r0.Type && l.tokens[len(l.tokens)-1].Text == nt_r0.Text
+//@   loop 0 body_ensures[earlier-tokens-kept] forall(0, head(len(l.tokens)), func(j int) bool { return l.tokens[j].Type == head(l.tokens[j].Type) && l.tokens[j].Text == head(l.tokens[j].Text) })
+//@   loop 0 decreases scanRemaining(&l.scanner)
